@@ -897,6 +897,18 @@ func genJunk(r *rng, o *out, do func(string) string) {
 	try([]byte("8=FIX.4.2\x019=5\x01"), "only89")
 	try([]byte("8=FIX.4.2\x019=5\x0135=D\x01"), "only8935")
 	try(append(append([]byte{}, noCk...), []byte("453=2\x01448=a\x01")...), "nochecksum-group")
+	{ // the witness of C11_checksum_member_swallowed on the real parser: a dictionary whose group 453 lists CheckSum
+		tmode := "a:@TEN"
+		tw := wireEncode("FIX.4.2", []kv{{"35", []byte("D")}, {"453", []byte("1")}, {"448", []byte("a")}})
+		emitDdefs(tmode, tw, seen, do)
+		res := do("parse " + tmode + " " + hx(tw))
+		o.kind("junk.checksum-member." + strings.Fields(res)[0])
+		if strings.HasPrefix(res, "ok") { // CheckSum swallowed by the group: not in the trailer
+			do("has t 10")
+			do("has b 453")
+			do("bytes")
+		}
+	}
 	// XMLDataLen beyond the message
 	for _, n := range []string{"9999", "9223372036854775807", "3", "1", "0", "-4", "", "x"} {
 		try(wireEncode("FIX.4.2", []kv{{"35", []byte("D")}, {"212", []byte(n)}, {"213", []byte("<a/>")}, {"55", []byte("X")}}), "xmllen")
